@@ -529,6 +529,9 @@ def gen_garbage(rng):
 TEXT_VALUES = ["1", "2", "", "x", "x y", "x;y", "; a=1", "a=1; b=2", "\"", "\\", "q\"r", "é", "€;", "\U0001f36a", ",", "=",
                "\x00", "\n", "\t;", "x\\073", "\"quoted\"", "~!@#$%^&*()_+-`.?|:/{}<>'", " ", "  x  ", "\x7f\x80\xff", "Wed, 31-Dec-97 23:59:59 GMT"]
 BRACKET_VALUES = ["x[y]", "[", "]x"]
+# values used on the request side: the bracket values join in only when every octet webob emits bare is also legal on
+# input (the premise plain_ok of the theorems; on a tree without C07's alphabet fix they would re-report C07's finding)
+REQ_VALUES = list(TEXT_VALUES)
 BAD_NAMES = ["", "$a", "a b", "a;b", "a=b", "path", "Path", "SECURE", "max-age", "é", "aé", "a,b", "a\"", "a/b", "(a)", "a\x00", "€"]
 GOOD_NAMES = NAMES + ["c", "a.b", "a-b", "!#%&'*+-.^_`|~", "aB", "Ab", "abc", "0"]
 
@@ -540,7 +543,7 @@ def gen_rop(rng, wide=True):
     else:
         name = rng.choice(NAMES + NAMES + GOOD_NAMES)
     if t == "set":
-        v = rng.choice(TEXT_VALUES)
+        v = rng.choice(REQ_VALUES)
         if wide and rng.random() < 0.05:
             v = rng.choice([None, "\ud800", "a\udfffb"])
         return ("set", name, v)
@@ -552,7 +555,7 @@ def gen_rop(rng, wide=True):
     for _ in range(rng.randrange(0, 4)):
         k = rng.choice(NAMES + GOOD_NAMES) if rng.random() < 0.9 else rng.choice([b for b in BAD_NAMES if b is not None])
         if k not in [p[0] for p in ps]:
-            ps.append((k, rng.choice(TEXT_VALUES)))
+            ps.append((k, rng.choice(REQ_VALUES)))
     return ("assign", ps)
 
 
@@ -792,7 +795,7 @@ def ref_line_name(line):
     first = line.split(";", 1)[0]
     if "=" not in first:
         return None
-    return first.split("=", 1)[0].strip(" \t")
+    return first.split("=", 1)[0].strip(" \t") or None      # a cookie-name is a token: never empty
 
 
 def args_valid(a, deleting=False):
@@ -1049,6 +1052,8 @@ def run(ctx):
         ctx.broken.append(p)
     ctx.build(["Props/C15.vo"])
     ck = C()
+    tabs = read_tables()[0]
+    REQ_VALUES[:] = TEXT_VALUES + (BRACKET_VALUES if set(tabs["allowed"]) <= set(tabs["legal"]) else [])
     n = ctx.scale(500, 5000)
     maxlen = ctx.scale(6, 12)
 
@@ -1132,8 +1137,9 @@ def run(ctx):
         "separators, stray quotes may follow); the oracle additionally runs backslash forms, date-shaped values and "
         "separators made of ',' (white space alone is not a separator: an empty value would swallow what follows).  On arbitrary garbage (unbalanced quote in value position, pairs glued without "
         "separator) only robustness, KeyError-iff-absent and agreement with a fresh Request are checked",
-        "values containing '[' or ']' are not used on the request side: they are emitted unquoted and read back "
-        "truncated on the unchanged tree, which is C07's finding (alphabet mismatch), not a jar-edit defect",
+        "values containing '[' or ']' are used on the request side only when the regenerated tables say that every octet "
+        "emitted bare is legal on input (premise plain_ok of the theorems); on a tree without that they are emitted unquoted "
+        "and read back truncated, which is C07's finding (alphabet mismatch), not a jar-edit defect",
         "an empty Set-Cookie header value (not producible through the cookie API) is outside the response oracle: "
         "merge_cookies treats a last empty value as 'nothing to merge' (modelled faithfully, covered by correspondence)",
         "set_cookie(overwrite=True) with arguments that are refused may already have removed the old cookie of that name "
